@@ -16,6 +16,8 @@ def pick_subtypes(tier, seed, always=("float64",), n_quick=2):
     thorough: all five."""
     if tier == "thorough":
         return list(gg.SUBTYPES)
+    if n_quick >= 3 and "int16" not in always:
+        always = tuple(always) + ("int16",)        # the narrowest subtype is where widths bite
     others = [s for s in gg.SUBTYPES if s not in always]
     out = list(always)
     for i in range(n_quick - len(always)):
